@@ -162,7 +162,11 @@ class C20(Prop):
                   "(HeaderPrefix::get . new = id in the RFC window; agreement with the RFC 9204 4.5.1.1 pseudo-code); ack_delivery_total "
                   "(in plain histories Encoder::on_decoder_recv accepts whatever the decoder wrote, in every batching: no UnknownStreamId, "
                   "no InvalidTrackingCount, no panic site) and plain_history_total (a history without capacity change and cancellation "
-                  "never ends in an error: the hypothesis `run s0 evs = some s` of the other theorems excludes nothing there)")
+                  "never ends in an error: the hypothesis `run s0 evs = some s` of the other theorems excludes nothing there); "
+                  "cut_delivery_partial (the encoder stream handed over in a Buf of several chunks is a whole delivery of a prefix of the "
+                  "instructions, and of all of them when no cut lies inside an instruction) with the decide-witness D20f (an instruction "
+                  "crossing a chunk boundary is never parsed); O20e_blocked_limit_witness (more streams at risk of blocking than the limit: "
+                  "observation, RFC 9204 2.1.2, not in the property's text)")
     level_note = ("trusted: Lean kernel + 3 standard axioms; instruction-level model (byte codecs of stream.rs/block.rs are exercised by the "
                   "correspondence run through the real bytes, not modelled: C15/C11's subject); model tied to the code by differential runs "
                   "of whole histories (real Encoder/Decoder driven through the cfg(hyperium_h3_verif) hook, every emitted instruction and "
@@ -170,7 +174,9 @@ class C20(Prop):
                   "on the failing track_cancel branch, proved unreachable; usize counters are Nat (sizes bounded by 2^30-1 by theorem, "
                   "insert counters assumed < 2^64); static table soundness (find/find_name vs table) by kernel decide on the extracted tables; "
                   "two defects fixed in the repository (D-20a increment > 64, D-20b capacity below referenced entries), two open findings "
-                  "(D-20c, D-20d) outside the property's stated quantifier (capacity changes, stream cancellation)")
+                  "(D-20c, D-20d) outside the property's stated quantifier (capacity changes, stream cancellation), one open finding on the "
+                  "delivery of the encoder stream in a multi-chunk Buf (D-20f); the blocked-stream limit is a parameter of the histories, "
+                  "not a demand of the oracle (reading R-20 / observation O-20e: state mark ~blk<n> compared between code and model, one NOTE per run)")
     rule = ("cases: whole histories `dyn <capacity> <blocked limit> <ops>`: 1..40 field sections over small alphabets (2 names x 3 values; "
             "6 names x 8 values incl. static-table names and exact static matches) plus wide workloads (300 distinct fields) for large "
             "increments; capacities {0,31,33..36,40,68..70,100,102,136,200,340,1000,2210,4096}; blocked limits {0,1,2,100}; stream ids "
@@ -180,7 +186,10 @@ class C20(Prop):
             "Known findings are applied per OP: the model puts `#D-20c` / `#D-20d` on the status token of the deliverBlock whose result the "
             "defect makes wrong (section encoded under another capacity than the decoder's; encoder evicted unreceived entries and the "
             "section's Required Insert Count is beyond the reconstruction window; later deliverBlocks of a stream whose queue a tagged op "
-            "left out of step with the oracle's) and a mismatch is waived only if every mismatching op carries such a tag")
+            "left out of step with the oracle's) and a mismatch is waived only if every mismatching op carries such a tag; every 8th "
+            "history delivers the encoder stream in chunks (`denc:<k>@<j>.<m>,...`: 1..3 cuts per delivery, in front of or inside an "
+            "instruction; every 40th: at instruction boundaries only), the real `on_encoder_recv` gets a Buf whose chunk() ends at the "
+            "next cut and is called twice; `#D-20f` on the status token of a delivery that leaves complete instructions unparsed (`X:stall`)")
     trusted = ["harness-side parser of the encoder stream / header blocks into instruction texts (uses the repository's own prefix_int/"
                "prefix_string decoders, C15)",
                "static table contents (C11's subject) shared by model and oracle; only find/find_name soundness is proved here"]
